@@ -421,8 +421,16 @@ fn body_decls(out: &mut Vec<Decl>) {
     push(c4, vec![find(c4, "f)", 0).map(|c| (c.0, c.1 - 1)), find(c4, "zz", 0)], &[0]);
     // FromAttributes: a newtype struct delegates and needs no attributes(..)
     push("struct S(u8);", vec![], &[5]);
-    push("#[darling(attributes(a))] struct S(u8);", vec![], &elem);
-    push("struct S(u8);", vec![], &[1, 2, 3, 4]);
+    push("#[darling(attributes(a))] struct S(u8);", vec![], &[1, 5]);
+    // element-level receivers are filled in by field name: a tuple struct is only representable
+    // as a newtype, and only where the impl delegates to the inner type
+    push("struct S(u8);", vec![], &[1]);
+    push("#[darling(attributes(a))] struct S(u8);", vec![None], &[2, 3, 4]);
+    push("struct S(u8);", vec![None], &[2, 3, 4]);
+    push("#[darling(attributes(a))] struct S(u8, u8);", vec![None], &elem);
+    push("#[darling(attributes(a))] struct S(#[darling(skip)] u8, u8, u8);", vec![None], &elem);
+    push("#[darling(attributes(a))] struct S();", vec![], &elem);
+    push("#[darling(attributes(a))] struct S;", vec![], &elem);
     // an `attrs` field with a converter still needs forward_attrs
     let at4 = format!("{a}struct S {{ #[darling(with = f)] attrs: Vec<u8>, b: u8 }}");
     push(&at4, vec![find(&at4, "attrs", 0)], &elem);
